@@ -11,7 +11,7 @@ CFG = dict(
     model="C08",
     required_theorems=["Props.C08.range_partition", "Props.C08.range_valid",
                        "Props.C08.rr_find_terminates", "Props.C08.rr_diverges_without_subscriber",
-                       "Props.C08.rr_valid", "Props.C08.rr_plan_valid",
+                       "Props.C08.rr_valid", "Props.C08.rr_plan_valid", "Props.C08.balance_topics_have_subscribers",
                        "Props.C08.sticky_valid", "Props.C08.sticky_invariant", "Props.C08.sticky_valid_partial",
                        "Bridge.C08.defaultGeneration_eq", "Bridge.C08.canTopicPartitionParticipate_eq"],
     n={"quick": 20000, "thorough": 1000000, "search": 20000},
